@@ -7,6 +7,7 @@
 //! events:  emit (n v) | emit c | emit (e k)     on the source subject
 //!          unsub                                 the outer subscription
 //!          gunsub <key>                          the probe of that group unsubscribes
+//!          q kc                                  `kc=<n>`: calls of the key function so far
 //!
 //! The outer probe logs `G<key>` and, unless skipped, subscribes a group probe
 //! *during* the announcement; a group probe logs `g<key>:N5 / g<key>:C / g<key>:E7`;
@@ -85,7 +86,21 @@ macro_rules! impl_suite {
         if case.has("skip") { case.field("skip").iter().map(Val::parse).collect() } else { vec![] };
       let src: $subject = <$subject>::default();
       let probe = $probe { log: log.clone(), skip, handles: handles.clone() };
-      let grouped = src.clone().group_by::<_, _, $subject>(move |v: &Val| keyf(v.clone()));
+      // calls of the key function (event `q kc`): exactly one per item that reaches group_by
+      let kc = Arc::new(Mutex::new(0usize));
+      let kc2 = kc.clone();
+      // field `seqkey <m>`: a STATEFUL key function (`FnMut`): the n-th call answers n / m whatever the item is.
+      // The scripts of such cases emit 0,1,2,… in order, so it coincides with the pure key `div<m>` the model and
+      // the oracle use — as long as the key function is called exactly once per item, in order.
+      let seqkey: Option<i64> = if case.has("seqkey") { Some(case.field("seqkey")[0].int()) } else { None };
+      let grouped = src.clone().group_by::<_, _, $subject>(move |v: &Val| {
+        let mut n = kc2.lock().unwrap();
+        *n += 1;
+        match seqkey {
+          Some(m) => Val::Int((*n as i64 - 1) / m),
+          None => keyf(v.clone()),
+        }
+      });
       // the outer subscription, type-erased into its unsubscribe action
       let mut unsub: Option<Box<dyn FnOnce()>> = if case.has("otake") {
         let n = case.field("otake")[0].nat();
@@ -101,6 +116,10 @@ macro_rules! impl_suite {
         out.cur = k;
         let mut terminal = false;
         match ev[0].atom() {
+          "q" => {
+            out.emit(k, format!("kc={}", *kc.lock().unwrap()));
+            continue;
+          }
           "emit" => {
             let mut s = src.clone();
             match Notif::parse(&ev[1]) {
